@@ -73,8 +73,10 @@ C08Rows == SetToSeq(C08SingleOK \cup C08PairsOK)
 (* decide how much is allocated; only what is actually handed over may                       *)
 C08Declared ==
   { [kind |-> "declared", declared |-> d, actual |-> a, limit |-> L,
-     exp |-> [o |-> "fail", maxHanded |-> IF L < 0 THEN a ELSE Min2(a, L + 1)]] :
-      d \in {"2p31", "2p40", "2p63m1"}, a \in {0, 10, 5000}, L \in {-1, 125, 32768} }
+     \* more bytes arrive than the limit allows: the read fails as "too big" (and the peer is told with 1009, whatever the header
+     \* declared); otherwise the transport ends inside the frame
+     exp |-> [o |-> IF L >= 0 /\ a > L THEN "tooBig" ELSE "fail", maxHanded |-> IF L < 0 THEN a ELSE Min2(a, L + 1)]] :
+      d \in {"2p31", "2p40", "2p63m1"}, a \in {0, 10, 5000, 40000}, L \in {-1, 125, 32768} }
 C08Bombs ==
   { [kind |-> "bomb", size |-> sz, limit |-> L, exp |-> LimitOutcome(L, sz)] :
       sz \in {1048576, 8388608}, L \in {-1, 0, 125, 32768} }
